@@ -209,4 +209,24 @@ example : (fit { epochs := 2, nTrain := 3, nVal := some 2, cbTrain := true, cbVa
 example : (fit { epochs := 2, nTrain := 3, nVal := some 2, cbTrain := true, cbVal := false } false true).map
     (fun s => countStep s.trace) = some 6 := by decide
 
+/-- **`test` runs in eval mode with gradients off, updates nothing, and restores the gradient mode it found**
+    (whatever that mode was — e.g. when the caller is itself inside `no_grad`): its trace is
+    `eval, no_grad+, n × forward(eval, grad off), no_grad-`. -/
+theorem test_trace (tr0 g0 : Bool) (n : Nat) :
+    (test ⟨tr0, g0, []⟩ n).trace = [Ev.setEval, Ev.noGradEnter] ++ List.replicate n (Ev.forward false false) ++ [Ev.noGradExit] ∧
+    (test ⟨tr0, g0, []⟩ n).gradOn = g0 ∧ (test ⟨tr0, g0, []⟩ n).training = false ∧
+    countStep (test ⟨tr0, g0, []⟩ n).trace = 0 := by
+  have h := foldl_valBatch n (⟨false, false, [Ev.setEval, Ev.noGradEnter]⟩ : St) rfl rfl
+  have e : test ⟨tr0, g0, []⟩ n =
+      ⟨false, g0, [Ev.setEval, Ev.noGradEnter] ++ List.replicate n (Ev.forward false false) ++ [Ev.noGradExit]⟩ := by
+    unfold test
+    simp only [St.emit, List.nil_append, List.cons_append] at h ⊢
+    rw [h]
+    simp
+  rw [e]
+  refine ⟨rfl, rfl, rfl, ?_⟩
+  simp [countStep, List.count_append, List.count_replicate]
+
+example : (test ⟨true, false, []⟩ 2).trace = [.setEval, .noGradEnter, .forward false false, .forward false false, .noGradExit] := by decide
+
 end Props.C20
